@@ -388,3 +388,24 @@ From PS Require Import Model.SievingPrimesM Proofs.SievingPrimesP.
 Theorem C04_tiny_sieve_spec : forall n m, m mod 2 = 1 -> 3 <= m -> m <= n -> (at_ (tiny_sieve n) m = true <-> prime m).
 Proof. exact tiny_sieve_spec. Qed.
 Print Assumptions C04_tiny_sieve_spec.
+
+(** the self-contained three-algorithm kernel (outer kernel with the thresholds of initAlgorithms; its sieving primes from an
+    inner kernel over [165, isqrt(stop)] fed by the tiny sieve, as SievingPrimes does; decoding of the surviving pre-sieved
+    bits): exactly the primes of [start, stop], ascending, for every configuration and interval - no hypothesis left *)
+From PS Require Import Model.Erat3Self Proofs.Erat3SelfP.
+Theorem C04_erat3_self_spec : forall l1 maxKB, 16 <= maxKB -> maxKB <= 8192 ->
+  forall s e, 7 <= s -> s <= e -> e <= MAX64 -> erat3_self l1 maxKB s e = primes_between s e.
+Proof. exact erat3_self_spec. Qed.
+Print Assumptions C04_erat3_self_spec.
+
+Theorem C04_sieving_primes3_spec : forall l1 maxKB stop, 16 <= maxKB -> maxKB <= 8192 -> stop <= MAX64 ->
+  sieving_primes3 l1 maxKB stop = primes_between 164 (N.sqrt stop).
+Proof. exact sieving_primes3_spec. Qed.
+Print Assumptions C04_sieving_primes3_spec.
+
+(** count_primes over it (2, 3, 5 from the small table + the kernel on [max(start, 7), stop]) = pi(stop) - pi(start - 1) *)
+Theorem C04_count_model_kernel3 : forall l1 maxKB, 16 <= maxKB -> maxKB <= 8192 ->
+  forall start stop, stop <= MAX64 ->
+  N.of_nat (length (sieve_model3 l1 maxKB start stop)) = count_primes_spec start stop.
+Proof. exact count_model3_spec. Qed.
+Print Assumptions C04_count_model_kernel3.
